@@ -857,6 +857,51 @@ theorem C07_export_covers_first_pass_partial (d : Data) (song : Song) (tags : Vg
     · rw [t1] at a; cases a
     · exact absurd t2 a
 
+/-- **The attenuation of a PSG melody channel over the whole log** (partial: one channel track,
+`6 ≤ id < 9`, tracks G–I; slurs allowed).  In a successful export, for EVERY update `k = 0 … K`,
+with `c'` the channel after the update and `atts` the attenuation values written to its volume
+register at sample `735·k`:
+ * **attenuation at key-on**: if a note is delivered in the ticks `N_k … N_{k+1}−1`, the slur flag
+   was clear before the update, no `SLUR` is delivered in these ticks, the track has not ended by
+   `N_{k+1}` and the envelope in force starts with a level byte `d0 > 0x0f`, then the LAST
+   attenuation write of the update is `psgAtt coarse vol d0` for the volume setting in force after
+   the update (`C07_attenuation_antitone`: antitone in the setting), and the envelope stands
+   behind its first byte;
+ * **key-off = attenuation 15 at the end of the track**: in the update in which the machine
+   stops (playing at `N_k`, stopped at `N_{k+1}`) the last attenuation write is 15.
+Extra hypotheses w.r.t. the full statement: one channel track, `SegTop`; the volume setting and the
+envelope are read off the channel state (their derivation from the `VOL` / `INS` commands of the
+stream is checked by the oracle: `psgExpectedAtt`). -/
+theorem C07_schedule_psg_partial (d : Data) (song : Song) (tags : Vgm.Tags) (ops : List Vgm.Op)
+    (id : Nat) (root : List Event) (hid6 : 6 ≤ id) (hid9 : id < 9)
+    (hexp : exportOps d song tags = .ok ops) (hsingle : SingleTrack song id root)
+    (hs : Refine.SongNoEnd song) (hr : Tree.NoEnd root) (hplain : TickStream.PlainCode song root)
+    (items : List Expand.Item) (hperf : Expand.perf song root = .ok items)
+    (hfuel : ∀ k outs, Refine.stepsCore song root k ⟨.root, 0, []⟩ = .ok (⟨.root, root.length, []⟩, outs) →
+      2 * k + 2 ≤ PlayerCh.settleFuel)
+    (hseg : ∀ k, TickStream.SegTop song root k ⟨.root, 0, []⟩) :
+    ∃ K L, ops = ctorPokes ++ (playSong d song).2 ++ L ++ [Vgm.Op.stop, Vgm.Op.writeTag tags] ∧
+      stamps 0 L = schedLog d song (playSong d song).1 (K + 1) ∧ delaySum L = 735 * K ∧
+      ∀ k, k ≤ K → ∃ c', (updRun d song (k + 1) (playSong d song).1).chans = [c'] ∧
+        (DeliveredIn (TickStream.lxInit items) (updRun d song k (playSong d song).1).ticks
+            (updRun d song (k + 1) (playSong d song).1).ticks (fun e => e.type = ev_NOTE) →
+          slurOf (updRun d song k (playSong d song).1) = false →
+          ¬ DeliveredIn (TickStream.lxInit items) (updRun d song k (playSong d song).1).ticks
+            (updRun d song (k + 1) (playSong d song).1).ticks (fun e => e.type = ev_SLUR) →
+          (TickStream.lxAfter (updRun d song (k + 1) (playSong d song).1).ticks (TickStream.lxInit items)).enabled = true →
+          ∀ d0, c'.envData[0]? = some d0 → d0 > 0x0f →
+            (atts (id - 6) (updWrs d song (playSong d song).1 k)).getLast? =
+              some (psgAtt c'.coarse (c'.var ev_VOL_FINE) d0 % 16) ∧ c'.envPos = 1 ∧ c'.envDelay = d0) ∧
+        ((TickStream.lxAfter (updRun d song k (playSong d song).1).ticks (TickStream.lxInit items)).enabled = true →
+          (TickStream.lxAfter (updRun d song (k + 1) (playSong d song).1).ticks (TickStream.lxInit items)).enabled = false →
+          (atts (id - 6) (updWrs d song (playSong d song).1 k)).getLast? = some 15) := by
+  obtain ⟨K, L, h1, h2, h3, _, _, h6⟩ := exportOps_log d song tags ops hexp
+  have hB : 2 * 49999 + 2 ≤ PlayerCh.settleFuel := by unfold PlayerCh.settleFuel; decide
+  have hrel := TickStream.relX_init song root hs hr items hperf 49999
+    (fun k outs h => by have := hfuel k outs h; unfold PlayerCh.settleFuel at this; omega) hseg
+  exact ⟨K, L, h1, h2, h3, fun k hk => single_psg d song root id hid6 hid9 hsingle _ 49999 (TickStream.endOK_root song root) hB
+    (TickStream.plainHooks_of song root hplain) _ hrel k (fun j hj => h6 j (by omega))⟩
+
 /-! ### non-vacuity of the whole-log theorems -/
 /-- FM channel A: `note 40 (on 2, off 1)  L  note 42 (on 2, off 2)` -/
 def exLoopRoot : List Event := [⟨ev_NOTE, 40, 2, 1⟩, ⟨ev_SEGNO, 0, 0, 0⟩, ⟨ev_NOTE, 42, 2, 2⟩]
@@ -1009,6 +1054,28 @@ example :
       | .ok ops => delaySum ops
       | .error _ => 0) = 735 * 5 := by
   refine ⟨⟨[], rfl, by decide, by simp⟩, rfl, by decide, by decide, ?_, ?_⟩ <;> decide +kernel
+
+/-- the hypotheses of `C07_schedule_psg_partial` hold for the PSG song above (`v12 c4(2+1)` on channel G) -/
+example :
+    let root : List Event := [⟨ev_VOL, 12, 0, 0⟩, ⟨ev_NOTE, 40, 2, 1⟩]
+    let song : Song := { tracks := [(6, root)] }
+    (∃ ops, exportOps { ins := [] } song exNoTags = .ok ops) ∧ SingleTrack song 6 root ∧
+    Refine.SongNoEnd song ∧ Tree.NoEnd root ∧ TickStream.PlainCode song root ∧
+    Expand.perf song root = .ok (root.map Expand.item) ∧
+    (∀ k outs, Refine.stepsCore song root k ⟨.root, 0, []⟩ = .ok (⟨.root, root.length, []⟩, outs) →
+      2 * k + 2 ≤ PlayerCh.settleFuel) ∧
+    (∀ k, TickStream.SegTop song root k ⟨.root, 0, []⟩) := by
+  intro root song
+  have hall := TickStream.songNoEnd_of_all song root (by decide)
+  refine ⟨?_, ⟨[], rfl, by decide, by simp⟩, hall.1, hall.2, ?_, rfl, ?_, ?_⟩
+  · have h : (match exportOps { ins := [] } song exNoTags with | .ok _ => true | .error _ => false) = true := by
+      decide +kernel
+    cases hx : exportOps { ins := [] } song exNoTags with
+    | ok ops => exact ⟨ops, rfl⟩
+    | error e => rw [hx] at h; cases h
+  · exact TickStream.of_allEvents song root (fun e => e.type ≠ ev_PLATFORM ∧ e.type ≠ ev_DRUM_MODE) (by decide)
+  · exact TickStream.fuel_of_run song root 2 (root.map fun e => .hook e e) _ rfl (by unfold PlayerCh.settleFuel; decide)
+  · exact TickStream.segTop_of_noSegno song root hall.1 hall.2 (root.map Expand.item) rfl (by decide)
 
 /-! ### the full statement (not proved; decided per export by the schedule oracle) -/
 /-- no keyed note ends inside the update it starts in: an update plays at most two ticks
